@@ -152,7 +152,7 @@ def gen_access(quick, nps):
                 vid = 2 if isrec else 1
                 le = c.op('*', 'enddef', f=0)
                 ls = c.op('*', 'sweep', f=0, nomfp=1)
-                ctx = []
+                ctx = []; written = {}
                 for k, (lin, idx) in enumerate(tg):
                     nd = len(full)
                     last = nd - 1
@@ -182,9 +182,15 @@ def gen_access(quick, nps):
                             if rr == r: lp = c.op(rr, 'put', f=0, form='vars', v=vid, s=idx, c=ct2, st=st, coll=1, mem=mem, vals=vals)
                             else: c.op(rr, 'put', f=0, form='vars', v=vid, s=idx, c=[0] * nd, st=st, coll=1, mem=mem)
                         ct = ct2; span = 1
+                    if mode == 'strided':
+                        written[lin] = vals[0]
+                        if ct2[0] == 2: written[lin + st[0] * inner[0]] = vals[0]
+                    else:
+                        for j in range(span): written[lin + j] = vals[j]
                     c.op('*', 'sync', f=0)
                     lg = c.op('*', 'get', f=0, form='vara', v=vid, s=idx, c=[1] * (nd - 1) + [span] if mode != 'strided' else [1] * nd, coll=1, mem=mem)
                     ctx.append(dict(lin=lin, idx=idx, span=span if mode != 'strided' else 1, vals=vals, put=lp, get=lg, rank=r))
+                for x in ctx: x['final'] = [written[x['lin'] + j] for j in range(x['span'])]      # later accesses may overlap earlier ones
                 c.op('*', 'close', f=0)
                 c.op('*', 'barrier')
                 # raw bytes at the model-computed positions (filled in by the judge from inq_varoffset / inq_recsize)
@@ -235,10 +241,10 @@ def main(tier=None):
             for k in r.ranks:
                 p = r.r(k, t['put'])
                 if p is not None and p.rc != 0: ck.violation(('rc', 'put', 'large offset'), c.text(), '%s: put at index %s returned %d' % (c.name, t['idx'], p.rc)); break
-                for gl in (t['get'], t['get2']):
+                for gl, want in ((t['get'], t['vals'][:t['span']]), (t['get2'], t['final'])):
                     g = r.r(k, gl)
-                    if g.rc != 0 or g.vals() != t['vals'][:t['span']]:
-                        ck.violation(('value', 'get', 'large offset'), c.text(), '%s: element %s (linear %d) reads %s rc=%d, written %s' % (c.name, t['idx'], t['lin'], g.vals(), g.rc, t['vals'][:t['span']])); break
+                    if g.rc != 0 or g.vals() != want:
+                        ck.violation(('value', 'get', 'large offset'), c.text(), '%s: element %s (linear %d) reads %s rc=%d, written %s' % (c.name, t['idx'], t['lin'], g.vals(), g.rc, want)); break
             ck.outcomes.add(('acc', c.name, t['lin']))
     ck.cov['large_offset_accesses'] = nacc
     ck.cov['distinct_nontrivial'] = len(ck.outcomes)
